@@ -49,6 +49,8 @@ pub struct RtpsWriterProxy {
 }
 
 impl RtpsWriterProxy {
+    const MAX_IRRELEVANT_CHANGES: usize = 1024;
+
     pub fn new(
         remote_writer_guid: Guid,
         unicast_locator_list: &[Locator],
@@ -182,14 +184,30 @@ impl RtpsWriterProxy {
         // (change.sequenceNumber == a_seq_num);
         // change.status := RECEIVED; change.is_relevant := FALSE;
         // Only this change becomes RECEIVED: the changes before it that are still missing stay missing.
-        const MAX_IRRELEVANT_CHANGES: usize = 1024;
         if a_seq_num > self.available_changes_max()
             && !self.irrelevant_changes.contains(&a_seq_num)
-            && self.irrelevant_changes.len() < MAX_IRRELEVANT_CHANGES
+            && self.irrelevant_changes.len() < Self::MAX_IRRELEVANT_CHANGES
         {
             self.irrelevant_changes.push(a_seq_num);
         }
         self.skip_irrelevant_changes();
+    }
+
+    /// Same as [`Self::irrelevant_change_set`] for every change in `first..end`, without
+    /// visiting each number of a range that the remote writer is free to make arbitrarily large
+    pub fn irrelevant_change_range(&mut self, first: SequenceNumber, end: SequenceNumber) {
+        let next_expected = self.available_changes_max() + 1;
+        if first <= next_expected {
+            if end > next_expected {
+                self.highest_received_change_sn = end - 1;
+                self.skip_irrelevant_changes();
+            }
+        } else {
+            // Not contiguous with the available changes: at most as many as can be remembered
+            for seq_num in (first..end).take(Self::MAX_IRRELEVANT_CHANGES) {
+                self.irrelevant_change_set(seq_num);
+            }
+        }
     }
 
     // Advance over the irrelevant changes that directly follow the last available change
